@@ -76,6 +76,9 @@ func checkC11(w *World, r *Report) {
 	r.Rule("R11.3", "reference-following recursion is guarded against cycles by a path set: tested, inserted before and removed after the recursive descent; the grouping check sees every uses statement the expansion follows; the include-cycle check covers every submodule", 5)
 	r.guard("R11.3", func() { c11Recursion(w, r) })
 
+	r.Rule("R11.7", "the import graph is complete: Process(Sub)moduleIncludes merge the unfiltered import statements of every included submodule into the including module (the only source of the submodule's edges in the import cycle check and module ordering)", 6)
+	r.guard("R11.7", func() { c11ImportEdges(w, r) })
+
 	r.Rule("R11.6", "no compile error is forgotten: in package compile every error result bound to a variable is examined (the two os.Open calls of the file-system feature scan are reviewed)", 1)
 	r.guard("R11.6", func() {
 		errRule(w, r, "R11.6", []string{"compile"}, map[string]string{
